@@ -34,7 +34,7 @@ if got != expected:
     bad.append(f"panic sites changed: expected {expected}, found {got}")
 # 5. diagnostics: the set of HANDLER.with sites
 n_handler = len(re.findall(r"HANDLER\s*\.\s*with\b", allsrc))
-exp_handler = 16
+exp_handler = 17
 if n_handler != exp_handler:
     bad.append(f"number of HANDLER.with sites is {n_handler}, the model has {exp_handler}")
 if bad:
